@@ -34,6 +34,7 @@ RULE = (
     'population models of a PopulationPredictiveModel are positive (log-normal, truncated, pooled) and get n_ids = '
     'n_samples; priors of the hierarchical posteriors are narrow uniforms around an in-support parameter vector. '
     'Non-trivial: >= 2 outputs / time points / random dimensions. Distinct = (entry, structure of the target, step kinds).')
+RULE += (' ' + 'Added: replicate time points, integer seeds passed as numpy integers, duplicate-noise statistic for continuous noise matrices.')
 ASSUMPTIONS = [
     'numpy Generators / RandomState seeded with different integers give independent streams',
     'pints priors sample from the global numpy generator (their documented behaviour)',
